@@ -22,7 +22,7 @@ COMMON_ASSUME = [
 _p("C05", "CrossHair/z3 bounded exhaustive symbolic execution of the five iterators against reference orders",
    CH + ". C05 is pure structure: all inputs are solver-picked cases (shape, start node, consumption count).",
    "one path = one (tree shape as parent vector, start node, partial-consumption count); non-trivial = subtree of the start node has >= 3 nodes; distinct = distinct decision tuples",
-   "all ordered trees with <= 5 nodes, every start node, next() 0..2 times", "all ordered trees with <= 7 nodes, every start node, next() 0..2 times",
+   "all ordered trees with <= 5 nodes, every start node, next() 0..2 times, for/break + second loop, zip(it, it); value-semantic class at N<=4", "all ordered trees with <= 7 nodes (value-semantic class <= 5), same",
    ["trees with more nodes than the bound", "recursion-depth limits on very deep trees", "concurrent mutation during iteration"],
    COMMON_ASSUME)
 
@@ -38,14 +38,14 @@ _p("C06", "CrossHair/z3 symbolic execution of each iterator with lazy stop/filte
 _p("C04", "CrossHair/z3 bounded exhaustive symbolic execution of all navigation attributes and util helpers against definitions over the model",
    CH + ". Pure structure: forest shape and one optional preceding mutation are solver-picked cases; every node / pair / triple is checked inside the path.",
    "one path = (forest shape, optional mutation); inside it every node, ordered pair and triple is evaluated; non-trivial = forest with >= 3 nodes",
-   "forests with <= 4 nodes incl. one optional parent=/children=/del before the queries; forests with 5 nodes without mutation; both mixin families",
-   "forests with <= 5 nodes with optional mutation; 6 nodes without; both families",
+   "forests with <= 4 nodes: all values read, then one optional parent= (possibly vetoed by _pre_attach)/children=/del, then all values again against the current links; forests with 5 nodes without mutation; both mixin families; value-semantic class at N<=4",
+   "one more node each",
    ["more nodes than the bound", "recursion limits on very deep trees", "commonancestors() of more than three nodes or none"], COMMON_ASSUME)
 
 _p("C15", "CrossHair/z3 bounded exhaustive symbolic execution of Walker.walk for every ordered pair against the LCA definition",
    CH + ". Pure structure: forest shape and the ordered pair are solver-picked cases.",
    "one path = (forest shape, start, end); non-trivial = path with >= 2 edges",
-   "forests with <= 5 nodes (one or more trees), every ordered pair, both families", "forests with <= 6 nodes, every ordered pair",
+   "forests with <= 5 nodes (one or more trees), every ordered pair, both families; value-semantic class and walk / parent= / same walk again at N<=4", "forests with <= 6 nodes (<= 5 for the two additions)",
    ["more nodes than the bound"], COMMON_ASSUME)
 
 _p("C14", "CrossHair/z3 symbolic execution of the search functions with lazy filter/stop/attribute-presence flags, unbounded symbolic maxlevel and attribute values",
@@ -53,7 +53,7 @@ _p("C14", "CrossHair/z3 symbolic execution of the search functions with lazy fil
    "maxlevel, the searched value and the nodes' attribute values are unbounded z3 Ints (or None); mincount/maxcount are picked relative to the expected match count k "
    "(None, k-1, k, k+1), because the real code %d-formats them into the message which would realise a symbolic value.",
    "one path = (shape, start, maxlevel region, predicate/presence answers, value-equality outcomes, count offsets); non-trivial = >= 2 matches (findall/find) or >= 1 match among >= 2 inspected nodes (by_attr)",
-   "trees with <= 3 nodes, every start node; 4 functions x {search, cachedsearch}; counts in {None, k-1, k, k+1}",
+   "trees with <= 3 nodes, every start node; 4 functions x {search, cachedsearch}; counts in {None, k-1, k, k+1}; attribute names 'name' and 'a.b'; cached call repeated after the tree changed",
    "trees with <= 4 nodes (5 for find/find_by_attr without counts), same",
    ["mincount/maxcount further than 1 from the match count (behave like the nearest tested value for comparison-based code)", "fastcache installed (cachedsearch then needs hashable arguments); here the pass-through decorator is what runs",
     "attribute values of other types than int/None"], COMMON_ASSUME + ["filter/stop/attribute lookups are pure per node"])
@@ -70,7 +70,7 @@ _p("C10", "CrossHair/z3 symbolic execution of DictExporter/DictImporter with ful
    CH + ". Attribute values are unconstrained symbolic int/str/bool (or None) that the code must pass through (checked by identity, then equality); maxlevel is None or any z3 Int; "
    "six combinations of attriter x childiter x dictcls (each option value at least twice) are exported inside each path; the filtering childiter's answers are lazy solver Booleans.",
    "one path = (shape, start, attribute layout, maxlevel region, drop answers) for export; (shape, layout, nodecls, explicit-empty flag) for import; non-trivial = >= 3 nodes",
-   "trees with <= 4 nodes, every start node, 0-2 attributes per node from a 5-key pool (incl. a private key), values symbolic; nodecls AnyNode/Node/user NodeMixin class",
+   "trees with <= 4 nodes (AnyNode) / <= 3 (Node, user class), every start node, 0-2 attributes per node from a 7-key pool (incl. a private key and the property names depth/size), values symbolic; nodecls AnyNode/Node/user NodeMixin class/user class with container semantics (falsy)",
    "trees with <= 5 nodes, same",
    ["attribute keys 'parent'/'children' and non-identifier keys (excluded by the statement)", "LightNodeMixin classes (no __dict__)", "values of container types (passed through untouched like any object)"],
    COMMON_ASSUME)
@@ -91,13 +91,13 @@ _p("C12", "CrossHair/z3 symbolic execution of DotExporter/UniqueDotExporter/Rend
    "nodes / links of the statement. Escaping is checked on fully symbolic strings of length <= 2 (every code point) and on all strings over a 4-letter alphabet up to length 3. "
    "Known finding F6 (edge to a stopped, undeclared child; pinned by tests/refdata) is recognised only by its exact extra-edge set.",
    "one path = (shape, start, name rotation, maxlevel region, stop/filter answers, default|custom functions, indent); non-trivial = >= 2 declared nodes",
-   "trees with <= 3 nodes (structure, 11 name rotations) ; every start node; default and custom name/attr/edge functions, options, indent 0-3, graph/name",
+   "trees with <= 3 nodes, every start node, 6 variants of (name rotation, default|custom name/attr/edge functions, options, indent 0-3, graph/name); second iteration after the exporter was widened and the tree grew; value-semantic node class (UniqueDotExporter)",
    "trees with <= 4 nodes, same", GR_OUT, COMMON_ASSUME + ["stop/filter are pure per node"])
 
 _p("C13", "CrossHair/z3 symbolic execution of MermaidExporter with lazy stop/filter flags and unbounded symbolic maxlevel; emitted lines parsed back",
    CH + ". As C12; identifiers are read off the node lines and must be distinct, used consistently in edges and stable across iterations.",
    "one path = (shape, start, name rotation, maxlevel region, stop/filter answers, default|custom functions, indent); non-trivial = >= 2 declared nodes",
-   "trees with <= 3 nodes, every start node, 11 name rotations, default and custom functions", "trees with <= 4 nodes, same", GR_OUT, COMMON_ASSUME + ["stop/filter are pure per node"])
+   "trees with <= 3 nodes, every start node, 6 variants of (name rotation, default|custom functions, options, indent); widened second iteration; value-semantic node class", "trees with <= 4 nodes, same", GR_OUT, COMMON_ASSUME + ["stop/filter are pure per node"])
 
 RES_OUT = ["characters whose upper/lower case mapping is not a one-to-one pair (sharp s, dotless i, ...): 'case-insensitively' is not precise enough there",
            "names outside the 22-entry pool for the tree-level obligations", "trees / paths beyond the bound"]
@@ -107,7 +107,7 @@ _p("C07", "CrossHair/z3 bounded exhaustive symbolic execution of Resolver.get ag
    "are solver-picked; every start node, leading-separator form (relative, absolute, absolute without root name, absolute with other-case root), trailing separator, ignorecase and relax "
    "combination is evaluated inside the path.",
    "one path = (shape, name rotation, component sequence); inside it 16 x n x 4 get() calls are judged; non-trivial = every path",
-   "trees with <= 3 nodes, 6 name rotations, paths of <= 3 components over {each node's name, an other-case name, '..', '.', '', unknown}; round trip: trees <= 4 nodes, 4 separator classes, pathattr name/id, 22 rotations",
+   "trees with <= 3 nodes, 6 name rotations, paths of <= 3 components over {each node's name, an other-case name, '..', '.', '', unknown}; separator '.'; value-semantic node class (<= 2 components); round trip: trees <= 4 nodes, 4 separator classes, pathattr name/id, 22 rotations",
    "trees with <= 4 nodes, all 22 rotations x 2 strides, paths of <= 3 components (<= 4 for trees with <= 3 nodes)", RES_OUT, COMMON_ASSUME)
 
 _p("C08", "z3 regular-expression inclusion queries on the patterns compiled by the real Resolver (names of any length) + CrossHair/z3 bounded execution of glob against a set-semantics interpreter",
@@ -115,7 +115,7 @@ _p("C08", "z3 regular-expression inclusion queries on the patterns compiled by t
    "and z3 decides both inclusions against the wildcard semantics of the statement for ALL names (unsat = equal). E-CH: " + CH + ". glob on picked trees/names/patterns vs an independent interpreter: "
    "relaxed set, pre-order list, duplicates rule, strict-mode dead ends, agreement with get, and cache transparency (same call repeated after calls of a resolver with the other ignorecase flag and at cache fill level _MAXCACHE-1).",
    "E-RE: one obligation = one (pattern, ignorecase) pair, two unsat queries; E-CH: one path = (shape, name rotation, component sequence, cache prelude), inside it 6 x n x 2 (x up to 5) glob calls; non-trivial = every path",
-   "E-RE: patterns of length <= 4 over 19 characters; E-CH: trees <= 3 nodes, 6 name rotations, <= 2 components over names/'..'/'.'/''/unknown/'*'/'a*'/'?'/'*b'/'**'/'???'",
+   "E-RE: patterns of length <= 4 over 19 characters; E-CH: trees <= 3 nodes, 6 name rotations, <= 2 components over names/'..'/'.'/''/unknown/'*'/'a*'/'?'/'*b'/'**'/'???'; value-semantic node class (2 rotations)",
    "E-RE: patterns of length <= 5; E-CH: trees <= 4 nodes, all rotations, <= 3 components", RES_OUT + ["E-RE: case folding only for the alphabet's letters"], COMMON_ASSUME + ["sre parse tree -> z3 regex translation (validated against re on every run)"])
 PROPS["C08"]["engine"] = "E-RE + E-CH"
 
@@ -133,14 +133,14 @@ _p("C19", "CrossHair/z3 bounded exhaustive symbolic execution of pickle (all pro
    CH + ". Structure-only claim and said so: pickle/copy are C code and run concretely on each path; the solver's part is exhaustive coverage of shape x class x entry x protocol x symlink targets; "
    "inside each path every single parent= mutation of the copy and of the original is checked for independence.",
    "one path = (shape, class, entry node, protocol|deepcopy, symlink targets); non-trivial = >= 3 nodes",
-   "trees with <= 4 nodes; classes Node, AnyNode, user NodeMixin, user NodeMixin with __len__ (falsy when empty), user NodeMixin with value __eq__, LightNodeMixin with __slots__, Node+SymlinkNode mixes (targets: any earlier node, links to links, a node of another tree); protocols 0-5 (2-5 for slots) and deepcopy",
+   "trees with <= 4 nodes; classes Node, AnyNode, user NodeMixin (with attributes named _parent/_children), user NodeMixin with __len__ (falsy when empty), user NodeMixin with value __eq__, LightNodeMixin with __slots__, a two-level __slots__ hierarchy, Node+SymlinkNode mixes (targets: any earlier node, links to links, a node of another tree); protocols 0-5 (2-5 for slots) and deepcopy",
    "trees with <= 5 nodes, same",
    ["trees deeper than the recursion limit of pickle/deepcopy", "classes with custom __reduce__/__getstate__ of their own"], COMMON_ASSUME)
 
 _p("C20", "CrossHair/z3 symbolic execution of SymlinkNode attribute forwarding (symbolic values) and structural independence on mixed trees",
    CH + ". Universe: ordinary nodes and links (to earlier nodes: same tree, other tree, link to link), forest shape solver-picked; written values are unconstrained symbolic ints (passed through, compared by identity first).",
    "forward: one path = (universe, forest, attribute name, constructor-kwargs flag), every node as writer and every node as reader inside; independent: + one structural call; interleave: two steps (write | parent=)",
-   "3 nodes (kinds: node0 ordinary, node1 ordinary|link, node2 ordinary|link to 0|link to 1), all forests, attribute names foo/name/x1/_p/__tag__; one structural call; 2-step interleavings",
+   "3 nodes (kinds: node0 ordinary and falsy, node1 ordinary|link, node2 ordinary|link to 0|link to 1) placed through the constructors' parent=, all forests, attribute names foo/name/x1/_p/__tag__; one structural call; 2-step interleavings of write / parent= / re-target",
    "4 nodes, 3-step interleavings",
    ["attribute names that are class attributes of the link's class (separator, path, is_leaf ...: the link's own by Python's lookup rules)", "attribute deletion", "SymlinkNodeMixin subclasses other than SymlinkNode"], COMMON_ASSUME)
 
@@ -152,36 +152,36 @@ _p("C01", "CrossHair/z3: one symbolic call with a symbolic hook-fault schedule f
    "arbitrary fault schedule (any hook invocation, pre or post, may raise; transient <= F faults or persistent from the first one) preserves the invariant; "
    "since every public mutation is one of the three calls this covers histories of any length over N nodes. Run for ANYTREE_ASSERTIONS=0 and 1 (separate imports).",
    "one path = (forest, variant, call, arguments, answers of the fault flags asked by the hooks that fired); non-trivial = a hook raised or the call was refused",
-   "N<=3 nodes, children sequences up to length 3 (+non-node object, +non-iterable), <=1 transient fault or persistent, classes NodeMixin-sub and LightNodeMixin-sub, assertions off and on; plus N=4 without faults for classes whose instances all compare equal",
-   "N<=4 with <=1 fault or persistent; N<=3 with <=2 faults; all five node classes; TreeError-derived veto class as well",
+   "N<=3 nodes, children sequences up to length 3 (+a non-node object, +None, +non-iterable), <=1 transient fault on any hook or persistent, NodeMixin- and LightNodeMixin-based classes, assertions off and on; N=4 without faults for value-semantic (all-equal, falsy) classes; N<=3 forests mixing both mixin flavours",
+   "additionally N=4 with <=1 fault or persistent; N<=3 with <=2 faults; Node/AnyNode/SymlinkNode subclasses; TreeError-derived veto class; mixed flavours at N<=4",
    MUT_OUT, COMMON_ASSUME + ["hooks only raise (Veto) or return; the fault flags are the only nondeterminism"])
 
 _p("C02", "CrossHair/z3 bounded exhaustive symbolic execution of parent=/children=/del against a functional oracle of C02's text",
    CH + ". No faults; post-state and refusal class compared with an oracle transcribed from the statement (not from the code); constructors compared with the assignments.",
    "one path = (forest, variant, call, arguments); non-trivial = successful call that changes the forest",
-   "N<=3 nodes with children sequences up to length 3, N=4 with sequences up to length 2; both mixin families; non-node object and non-iterable arguments; list and iterator arguments",
-   "N<=3 L<=3, N=4 with sequences up to length 4, N=5 with sequences up to length 2",
+   "N<=3 nodes with children sequences up to length 3, N=4 with sequences up to length 2; both mixin families; value-semantic classes at N<=4; non-node object, None and non-iterable arguments; list and iterator arguments; 2-call histories (N<=3); constructors of Node/AnyNode/SymlinkNode incl. falsy parents",
+   "N<=3 L<=3, N=4 with sequences up to length 4, N=5 with sequences up to length 2; 2-call histories with sequences <=2, 3-call histories at N<=2",
    MUT_OUT, COMMON_ASSUME)
 
 _p("C03", "CrossHair/z3: one symbolic call with symbolic pre-hook vetoes; post-state must equal pre-state whenever the call raises",
    CH + ". Faults on the four _pre_* hooks only (transient or persistent) and all invalid arguments. Known findings F1/F2/F3/F9 are recognised only by their "
    "trigger family AND the exact outcome the documented protocol yields (operational model); any other deviation is a violation.",
    "one path = (forest, variant, call, arguments, fault answers); non-trivial = the call raised",
-   "N<=3, sequences up to length 3, <=1 transient pre-hook veto or persistent, both families",
-   "N<=4 with <=1 veto or persistent; N<=3 with <=2 vetoes; TreeError-derived veto class as well",
+   "N<=3, sequences up to length 3, <=1 transient pre-hook veto or persistent, both families; value-semantic classes (sequences <=2)",
+   "additionally N=4 with <=1 veto or persistent; N<=3 with <=2 vetoes; TreeError-derived veto class",
    MUT_OUT, COMMON_ASSUME + ["the operational model in oracle/forest.py is the documented protocol (validated: it must reproduce the real hook log exactly in C16)"])
 
 _p("C16", "CrossHair/z3: hook log of one symbolic call (with at most one symbolic post-hook fault) == protocol model, incl. observed states",
    CH + ". Each hook records (name, node, argument, parent seen, membership/position in the parent's children seen); compared with the operational model of C16's text.",
    "one path = (forest, variant, call, arguments, fault answers); non-trivial = at least one hook fired",
-   "N<=3, sequences up to length 3, no fault or one post-hook fault, both families",
+   "N<=3, sequences up to length 3, no fault or one post-hook fault (parent= only), both families; value-semantic classes without faults",
    "N<=4, same; plus <=1 fault on any hook",
    MUT_OUT, COMMON_ASSUME)
 
 _p("C18", "CrossHair/z3 lock-step execution of a NodeMixin class and a LightNodeMixin(__slots__) class on the same symbolic forest, call and fault schedule",
    CH + ". Outcome class, post-state, hook log and ~40 read-only queries per node (navigation, iterators, Walker, Resolver, RenderTree) compared index-mapped.",
    "one path = (forest, variant, call, arguments, fault answers); non-trivial = at least one hook fired",
-   "N<=3, sequences up to length 3, <=1 fault (any hook) or persistent",
+   "N<=3, sequences up to length 3, <=1 fault (any hook) or persistent; fault-free with list and one-shot iterator arguments; value-semantic classes",
    "N<=4, same",
    MUT_OUT + ["non-node arguments (excluded by the statement)"], COMMON_ASSUME)
 
